@@ -149,6 +149,11 @@ func (r *RolloutReconciler) Reconcile(ctx context.Context, req ctrl.Request) (ct
 
 	switch rollout.Status.Phase {
 	case v1beta1.RolloutPhaseProgressing:
+		// the Rollout has just been deleted or disabled: persist the new phase (with the reset
+		// finalising cursor) first, the terminating / disabling logic takes over from there
+		if newStatus != nil && newStatus.Phase != v1beta1.RolloutPhaseProgressing {
+			break
+		}
 		recheckTime, err = r.reconcileRolloutProgressing(rollout, newStatus)
 	case v1beta1.RolloutPhaseTerminating:
 		recheckTime, err = r.reconcileRolloutTerminating(rollout, newStatus)
